@@ -160,7 +160,7 @@ fn scaling_specs(r: &mut TestRunner, n: usize) -> Vec<Spec> {
     let count = any::<u8>();
     for i in 0..n {
         let mut rules = vec![];
-        match i % 4 {
+        match i % 5 {
             0 => {
                 // 10-40 keyword rules plus an identifier rule
                 let k = 10 + (sample(&count, r) as usize % 31);
@@ -183,10 +183,25 @@ fn scaling_specs(r: &mut TestRunner, n: usize) -> Vec<Spec> {
                     rules.push((Re::Str(keyword(r, (20, 60))), None));
                 }
             }
+            4 => {
+                // fixed-length sequences over a multi-range class (hex digits) next to an
+                // identifier rule: 8-40 states, each reached through several range arms
+                let k = 8 + (sample(&count, r) as usize % 33);
+                let hex = Re::Set(vec![SetItem::R('0', '9'), SetItem::R('a', 'f'), SetItem::R('A', 'F')]);
+                let mut chain = hex.clone();
+                for _ in 1..k {
+                    chain = cat(chain, hex.clone());
+                }
+                rules.push((chain, None));
+                rules.push((plus(Re::Set(vec![SetItem::R('a', 'z'), SetItem::R('A', 'Z'), SetItem::R('0', '9'), SetItem::C('_')])), None));
+                rules.push((Re::Char(' '), None));
+            }
             3 => {
                 // a 10-30-way alternation of characters as an operand of `#`, directly and through
                 // a variable
-                let k = 10 + (sample(&count, r) as usize % 21);
+                // always some 30-way ones: a cost that doubles per alternative stays invisible
+                // below ~26 alternatives
+                let k = if i % 10 == 3 { 30 } else { 10 + (sample(&count, r) as usize % 21) };
                 let letters: Vec<char> = ('a'..='z').chain('0'..='9').collect();
                 let mut a = Re::Char(letters[0]);
                 for j in 1..k {
@@ -351,6 +366,7 @@ pub fn run_c12(tier: Tier) -> i32 {
     let mut slowest = 0.0f64;
     let mut nt = std::collections::HashSet::new();
     let mut samples = vec![];
+    let mut confirmed_timeouts = 0;
     for (i, ((a, ta), (b, _))) in first.iter().zip(second.iter()).enumerate() {
         slowest = slowest.max(*ta);
         let def = &defs[i];
@@ -363,15 +379,22 @@ pub fn run_c12(tier: Tier) -> i32 {
                 )),
                 other => violations.push((def.clone(), format!("second expansion failed: {}", other.short()))),
             },
+            Expand::Timeout(_) if confirmed_timeouts >= 3 => {
+                // three confirmed non-terminating definitions are reported; further budget
+                // overruns of the same run are not re-measured alone (40 s each)
+            }
             Expand::Timeout(_) => {
                 // confirm alone with a doubled budget before calling it non-termination
                 let mut w = Worker::new();
                 match w.expand(def, false, EXPAND_BUDGET * 2) {
                     Expand::Ok { .. } => {}
-                    other => violations.push((
-                        def.clone(),
-                        format!("macro expansion does not finish within {} s: {}", EXPAND_BUDGET.as_secs() * 2, other.short()),
-                    )),
+                    other => {
+                        confirmed_timeouts += 1;
+                        violations.push((
+                            def.clone(),
+                            format!("macro expansion does not finish within {} s: {}", EXPAND_BUDGET.as_secs() * 2, other.short()),
+                        ))
+                    }
                 }
             }
             other => violations.push((def.clone(), format!("well-formed definition does not expand: {}", other.short()))),
@@ -568,6 +591,16 @@ fn c16_tree() -> BoxedStrategy<Re> {
         .boxed()
 }
 
+/// Appends `$` at a tail position chosen by the bits: at this node, or inside the right operand of
+/// a top-level `|` / concatenation (`a | b $`, `a (b | c $)`).
+fn eoi_at_tail(re: Re, bits: u64) -> Re {
+    match re {
+        Re::Alt(a, b) if bits & 1 == 1 => alt(*a, eoi_at_tail(*b, bits >> 1)),
+        Re::Cat(a, b) if bits & 1 == 1 && !matches!(*b, Re::Diff(..)) => cat(*a, eoi_at_tail(*b, bits >> 1)),
+        other => cat(other, Re::Eoi),
+    }
+}
+
 fn replace_leaf(re: &mut Re, k: &mut usize, with: Re) -> bool {
     match re {
         Re::Star(a) | Re::Plus(a) | Re::Opt(a) => replace_leaf(a, k, with),
@@ -738,6 +771,9 @@ pub fn run_c16(tier: Tier) -> i32 {
             let mut re = sample(&tree, &mut r);
             if (i + j) % 5 == 0 {
                 re = cat(re, Re::Eoi);
+            } else if (i + j) % 5 == 1 {
+                // `$` at the tail of the LAST alternative / concatenation (descending the right spine)
+                re = eoi_at_tail(re, sample(&bits, &mut r));
             }
             let ctx = if (i + j) % 4 == 0 { Some(sample(&tree, &mut r)) } else { None };
             rules.push((re, ctx));
@@ -927,7 +963,10 @@ fn nth_rule_mut(spec: &mut Spec, k: usize) -> Option<&mut Rule> {
 }
 
 fn bad_diff_operand(which: usize) -> (Re, &'static str) {
-    match which % 5 {
+    match which % 8 {
+        5 => (diff(Re::Any, alt(Re::Str("x".into()), Re::Str("y".into()))), "one-character strings under | as operand of #"),
+        6 => (diff(Re::Any, alt(Re::Char('x'), Re::Str("y".into()))), "a one-character string under | as operand of #"),
+        7 => (diff(alt(Re::Str("q".into()), Re::Set(vec![SetItem::R('a', 'c')])), Re::Char('a')), "a one-character string in the left operand of #"),
         0 => (diff(Re::Str("ab".into()), Re::Char('a')), "string operand of #"),
         1 => (diff(Re::Any, star(Re::Char('a'))), "repetition operand of #"),
         2 => (diff(cat(Re::Char('a'), Re::Char('b')), Re::Char('a')), "concatenation operand of #"),
@@ -951,7 +990,7 @@ fn mutants(r: &mut TestRunner, i: usize) -> Vec<Mutant> {
             late,
         })
     };
-    match i % 17 {
+    match i % 18 {
         0 => {
             // unbound variable inside a rule
             let mut s = base.clone();
@@ -1013,6 +1052,38 @@ fn mutants(r: &mut TestRunner, i: usize) -> Vec<Mutant> {
             let mut s = base.clone();
             s.items.insert(0, Top::Let("unused9".into(), bad));
             push(&mut out, "bad-diff-operand", pr(&s), true, false);
+        }
+        17 => {
+            // the violation sits in a RIGHT CONTEXT; in half of the cases the rule's regex repeats
+            // the regex of an earlier context-free rule (so the rule itself can never win)
+            let bads: Vec<(Re, &'static str)> = vec![
+                (Re::Var("undefined_ctx_var".into()), "unbound-var-in-ctx"),
+                (Re::Builtin("no_such_builtin".into()), "unknown-builtin-in-ctx"),
+                (bad_diff_operand(pos).0, "bad-diff-operand-in-ctx"),
+            ];
+            for (k, (bad, kind)) in bads.into_iter().enumerate() {
+                let mut s = base.clone();
+                let n = s.n_rules();
+                if n == 0 {
+                    continue;
+                }
+                let j = (pos + k) % n;
+                let earlier: Option<Re> = if j > 0 && (pos / 3 + k) % 2 == 0 {
+                    // an earlier rule of the same rule set without context
+                    let rules = s.rules();
+                    rules[..j].iter().rev().find(|r| r.ctx.is_none() && !r.re.has_eoi()).map(|r| r.re.clone())
+                } else {
+                    None
+                };
+                {
+                    let mut rules = s.rules_mut();
+                    if let Some(e) = earlier {
+                        rules[j].re = e;
+                    }
+                    rules[j].ctx = Some(bad);
+                }
+                push(&mut out, kind, pr(&s), false, j >= 1);
+            }
         }
         3 => {
             // `#` operand that is not a class, through a variable
